@@ -100,7 +100,12 @@ def history_campaign(ctx, out, judge, *, n_hist, n_steps, profiles, labels_sets,
                             op.pop("via")
                     except Exception:  # noqa
                         pass
-            s = r.step(op)
+            try:
+                s = r.step(op)
+            except RecursionError:
+                if diverged_at is None:
+                    raise
+                break     # implementation-only continuation on a diverged (possibly corrupted, very deep) tree: this history ends here
             log.append(H.clean(op))
             size_max = max(size_max, s.n_nodes)
             out.evaluations += 1
@@ -321,7 +326,7 @@ def all_single_ops(impl, ti, *, labels, full=True):
         for to in allp:
             par = impl.node(ti, to)
             sibs = [i for i in range(len(par.children)) if to + [i] != q]
-            bs = [None, True, False, 0, 1, 3] + [{"path": to + [i]} for i in sibs[:2]] + [{"path": q}]
+            bs = [None, True, False, 0, 1, 3, -1, -2] + [{"path": to + [i]} for i in sibs[:2]] + [{"path": q}]
             for b in bs:
                 ops.append({"op": "w.move", "t": ti, "n": q, "to": to, "before": b, "tree_api": False})
         ops.append({"op": "w.move", "t": ti, "n": q, "to": [], "cross": True, "ct": other})
